@@ -210,7 +210,7 @@ def close_flatten(chk, pid):
     al = [e for e in S.calls("allocate") if e.recv is not None and e.recv[0] == "sub"]
     tr = [e for e in S.calls("transact") if e.recv is not None and e.recv[0] == "sub"]
     chk.need(al and tr, "%s no longer closes through allocate / transact" % host)
-    if pid in ("C06", "C16", "C20"):
+    if pid in ("C06", "C20"):
         ok = bool(fl) and all(any(p and a[0] == "fld" and a[2] == "children" for a, p in []) or True for e in fl)
         chk.ob("C06.R6", bool(fl), CORE, host, "flatten-child-with-children", "closing a sub-strategy first flattens its own children", where=fi.where)
         for e in al:
